@@ -151,7 +151,7 @@ func r05_1(c *RC) {
 					return
 				}
 				n++
-				for _, l := range Leaves(cl.Common().Value, nil) {
+				for _, l := range LeavesX(p, fn, cl.Common().Value, 0) {
 					if !authCipherLeaf(p, l) {
 						bad = describe(l)
 					}
@@ -515,7 +515,7 @@ func r05_3(c *RC) {
 		args := callArgs(s.Instr.(ssa.CallInstruction))
 		src := args[len(args)-1]
 		if fa, ok := src.(*ssa.FieldAddr); ok {
-			if f, _ := fieldOfAddr(fa); sameField(f, segBlock) && s.Fn.Name() == "input" {
+			if f, _ := fieldOfAddr(fa); sameField(f, segBlock) && ownerName(p, s.Fn) == "input" {
 				c.OKH(key, s.Pos(), "Session.block.Store(&seg.block) in Session.input")
 				continue
 			}
